@@ -6,6 +6,7 @@ TRUSTED_BASE = [
     'runner/main.ml: hand-written JSON reader/printer and conversions to the extracted inductives',
     'harness/cmd/rh: Go generators, observation and canonical rendering of the real code built from /repo with -tags verif',
     'bin/check: orchestration, shrinking, evidence',
+    'tools/gotables: Go AST -> coq/gen/GateTable.v, LockTable.v, DispatchTable.v (regenerated from /repo on every run; the reflection theorems are about these tables)',
 ]
 
 PROPS = {
@@ -292,7 +293,7 @@ PROPS = {
                       'Tie to the code: generated scripts x settings x positions run in child processes with a wall-clock oracle; observed outcome classes must be outcomes of the model.',
         'level_note': 'The model abstracts the script to its family (what it does relative to the deadline, whether it polls) and leaves out stuttering polls; time is assumed to pass (an enabled timer fires, a runnable goroutine runs). '
                       'otto (dependency) is trusted to poll Interrupt at every statement/expression and nowhere else; the bound "within limit + 1.5 s" is a wall-clock observation, not a theorem. '
-                      'Open: D19 (the unrepaired tree hangs its caller on every time-out; repair proposed in hooks/d19.diff), D27 (for(;;){} is never interrupted: otto polls only when a statement or expression is evaluated).',
+                      'D19 (the caller hung on every time-out) is repaired in /repo (fix: commit). Open: D27 (for(;;){} is never interrupted: otto polls only when a statement or expression is evaluated).',
         'technique': 'Coq: explicit-state model checking inside the kernel (verified closure of the reachable set + well-founded progress measure) of a two-thread channel protocol; child-process differential testing with a hang detector',
         'assumptions': ['otto polls the Interrupt channel once per evaluated statement/expression and only there',
                         'weak fairness: an enabled timer eventually fires and a runnable goroutine eventually runs',
